@@ -21,7 +21,7 @@ from ..poly import Poly, le, lt, eq
 from ..terms import Terms, reify, plain, match, V, ANY, show, subterms, \
     alternatives, one_level, chunked, chunk_index, concat_parts, mk_cmp, \
     is_none, method_calls, stores
-from ..util import calls_in, qual, returns_of, bind
+from ..util import calls_in, qual, returns_of, bind, formals
 
 MOD = "rig.machine_control.boot"
 SF = "rig.machine_control.struct_file"
@@ -946,6 +946,53 @@ def r4_packet(program, folder, rep):
     rep.floor("C20-R4", 4)
 
 
+def r3_numbers(program, rep):
+    """Every number of a struct file - offsets, sizes, bases, defaults - is
+    read as hexadecimal when it is written 0x..., as decimal otherwise.
+    int(text, 0) is not that: it applies the rules of Python literals, under
+    which a decimal with a leading zero ('075') is an error, so a struct
+    file that loaded before makes boot() fail before anything is sent."""
+    fn = program.get(SF + ":num")
+    inst = qual(fn)
+    T = Terms(fn)
+    V_ = ("param", formals(fn)[0])
+    n = 0
+    for r in returns_of(fn):
+        if r.value is None:
+            continue
+        t = plain(T.term(r.value, T.cfg.node_of(r)))
+        if not (t[0] == "call" and t[1] == ("global", "int") and
+                len(t[2]) in (1, 2) and t[2][0] == V_):
+            raise AnalysisError("struct_file.num: a number is not "
+                                "converted by int(<text>[, base])")
+        base = t[2][1] if len(t[2]) == 2 else dict(t[3]).get("base",
+                                                             ("const", 10))
+        if base[0] != "const" or not isinstance(base[1], int):
+            raise AnalysisError("struct_file.num: the base is not a "
+                                "constant")
+        n += 1
+        hexy = any(p_ and any(st[0] == "attr" and st[2] == "match"
+                              for st in subterms(t_))
+                   for t_, p_ in T.all_facts(T.cfg.node_of(r)))
+        ok = base[1] == 16 and hexy or base[1] == 10 and not hexy
+        rep.check(ok, "C20-R3", inst, "numbers are read in base 16 when "
+                  "they match the 0x pattern, else in base 10",
+                  construct="number base %d%s" % (
+                      base[1], " (0x...)" if hexy else ""), node=r,
+                  fail="numbers of the struct file are converted with base "
+                       "%d%s: %s" % (
+                           base[1], " where the 0x pattern matched" if hexy
+                           else "", "int(text, 0) follows the rules of "
+                           "Python literals and refuses decimals written "
+                           "with a leading zero (075), which were read as "
+                           "75 - boot() fails with ValueError before "
+                           "anything is sent" if base[1] == 0 else
+                           "decimal and hexadecimal fields are read in the "
+                           "wrong base"))
+    if not n:
+        raise AnalysisError("struct_file.num: no conversion found")
+
+
 def check(program, rep):
     program.module(MOD)
     folder = Folder(program)
@@ -956,6 +1003,7 @@ def check(program, rep):
     rep.guard("C20-R3", r3_pack_fields, program, rep)
     rep.guard("C20-R3", r3_returned_structs, program, rep)
     rep.guard("C20-R3", r3_callers_files, program, rep)
+    rep.guard("C20-R3", r3_numbers, program, rep)
     rep.guard("C20-R4", r4_packet, program, folder, rep)
     # the packed configuration is only as good as the table that maps the
     # struct file's field codes to struct-module codes (C14-R6)
